@@ -22,6 +22,8 @@ pub enum Rb {
     BinStr,
     /// collect from own iterator
     Collect,
+    /// collect from own iterator wrapped in a `filter` (size_hint lower bound 0)
+    CollectNoHint,
 }
 
 #[derive(Clone, Debug)]
@@ -36,6 +38,8 @@ pub enum Act {
     Prepend(Vo),
     Insert(usize, Vo),
     Extend(Bits),
+    /// extend from an iterator whose size_hint lower bound is 0 (a `filter`)
+    ExtendNoHint(Bits),
     ShlIn(bool),
     ShrIn(bool),
     Rotl(usize),
@@ -107,6 +111,10 @@ fn apply_g<T: Subj + Extend<Bit> + FromIterator<Bit>>(mut x: T, a: &Act) -> (T, 
             x.extend(bits.0.iter().map(|b| b2bit(*b)));
             (x, Obs::None)
         }
+        Act::ExtendNoHint(bits) => {
+            x.extend(bits.0.iter().filter(|_| true).map(|b| b2bit(*b)));
+            (x, Obs::None)
+        }
         Act::ShlIn(b) => {
             let r = x.shl_in(b2bit(*b));
             (x, Obs::Bit(Some(bit2b(r))))
@@ -176,6 +184,10 @@ fn apply_g<T: Subj + Extend<Bit> + FromIterator<Bit>>(mut x: T, a: &Act) -> (T, 
         }
         Act::Rebuild(Rb::Collect) => {
             let y: T = x.iter().collect();
+            (y, Obs::None)
+        }
+        Act::Rebuild(Rb::CollectNoHint) => {
+            let y: T = x.iter().filter(|_| true).collect();
             (y, Obs::None)
         }
         _ => unreachable!("non-generic action reached apply_g: {:?}", a),
@@ -338,7 +350,7 @@ pub fn model(kind: K, m: &Bits, a: &Act) -> Exp {
             let hi = m.slice(*i, n);
             ok(lo.concat_high(&yb).concat_high(&hi))
         }
-        Act::Extend(b) => {
+        Act::Extend(b) | Act::ExtendNoHint(b) => {
             if !fits(n + b.len()) {
                 return Exp::Panic;
             }
@@ -582,6 +594,7 @@ impl Rb {
             Rb::NewInner => "new_inner".to_string(),
             Rb::BinStr => "binstr".to_string(),
             Rb::Collect => "collect".to_string(),
+            Rb::CollectNoHint => "collect_nohint".to_string(),
         }
     }
     pub fn parse(s: &str) -> Option<Rb> {
@@ -593,6 +606,7 @@ impl Rb {
             "new_inner" => Rb::NewInner,
             "binstr" => Rb::BinStr,
             "collect" => Rb::Collect,
+            "collect_nohint" => Rb::CollectNoHint,
             _ => Rb::Via(K::parse(s.strip_prefix("via:")?)?),
         })
     }
@@ -611,7 +625,7 @@ impl Act {
             Act::Append(_) => "append".into(),
             Act::Prepend(_) => "prepend".into(),
             Act::Insert(..) => "insert".into(),
-            Act::Extend(_) => "extend".into(),
+            Act::Extend(_) | Act::ExtendNoHint(_) => "extend".into(),
             Act::ShlIn(_) => "shl_in".into(),
             Act::ShrIn(_) => "shr_in".into(),
             Act::Rotl(_) => "rotl".into(),
@@ -673,6 +687,7 @@ impl Act {
             Act::Prepend(v) => format!("prepend {}", v.show()),
             Act::Insert(i, v) => format!("insert {} {}", i, v.show()),
             Act::Extend(b) => format!("extend {}", bstr(b)),
+            Act::ExtendNoHint(b) => format!("extend_nohint {}", bstr(b)),
             Act::ShlIn(b) => format!("shl_in {}", b01(*b)),
             Act::ShrIn(b) => format!("shr_in {}", b01(*b)),
             Act::Rotl(k) => format!("rotl {}", k),
@@ -715,6 +730,7 @@ impl Act {
             ("prepend", 2) => Act::Prepend(Vo::parse(t[1])?),
             ("insert", 3) => Act::Insert(u(t[1])?, Vo::parse(t[2])?),
             ("extend", 2) => Act::Extend(if t[1] == "-" { Bits::new() } else { Bits::from_binstr(t[1]) }),
+            ("extend_nohint", 2) => Act::ExtendNoHint(if t[1] == "-" { Bits::new() } else { Bits::from_binstr(t[1]) }),
             ("shl_in", 2) => Act::ShlIn(b(t[1])),
             ("shr_in", 2) => Act::ShrIn(b(t[1])),
             ("rotl", 2) => Act::Rotl(u(t[1])?),
